@@ -427,7 +427,9 @@ impl Basic {
     }
 
     fn pick_conn(&self, w: &World, client: bool) -> Option<u32> {
-        let c = *self.client_incs.first()?;
+        // (the most recent connection that is still alive: in worlds that connect again later,
+        // operations drawn for later instants act on the later connection)
+        let c = self.client_incs.iter().rev().copied().find(|i| !w.conns[*i as usize].conn.is_closed()).or(self.client_incs.first().copied())?;
         if client {
             Some(c)
         } else {
